@@ -502,11 +502,13 @@ def main():
                     continue
                 if not T and tname in UNIFORM_THEN_VARIABLE and (not symm or mname == "empty"):
                     continue
+                if T and tname == "uniform-then-variable-10bins" and not symm:
+                    continue
                 pix = pixels_from_dense(A, symm)
                 S = Scope(B, tname, spec, mname, pix, symm)
                 scopes[(tname, mname, symm)] = S
                 for f in factors:
-                    if not T and tname in UNIFORM_THEN_VARIABLE and f > 4:
+                    if tname in UNIFORM_THEN_VARIABLE and f > 4:
                         continue
                     combo += 1
                     sweep(B, S, f, combo, all_chunksizes=T and S.nnz <= 30 and f <= 4, file_level=2 if T else 1)
